@@ -85,7 +85,7 @@ func checkSpecs() map[string]CheckSpec {
 		return HarnessSpec{Func: f, Domain: X, RealInputs: true, NonFinite: true, Covers: []string{"end"}}
 	}
 	add(CheckSpec{Property: "C15", Harnesses: []HarnessSpec{
-		c15("HC15_PointLine2D"), c15("HC15_Perpendicular2D"), c15("HC15_PointLineString2D"),
+		c15("HC15_PointLine2D"), c15("HC15_Perpendicular2D"), c15("HC15_PointLineString2D"), c15("HC15_Degenerate2D"),
 		c15("HC15_Point3D"), c15("HC15_Degenerate3D"),
 	}, Explanation: "2D and 3D distance functions executed symbolically over all real ordinates of the range; sqrt as r>=0, r*r=x; results compared with division-free exact specifications.",
 		Outside: []string{"the 1e-9 relative rounding tolerance (claims are about the real-number semantics of the code)"}})
